@@ -106,6 +106,8 @@ def transform(cfg, kinds, p):
             extra["depth"] = p["depth"]
         if m != 4:
             extra["NetIrrSMT"] = p["net"]
+        if m != 3:
+            extra["schedule_param"] = [[base["start"].replace("/", "-"), p["depth"]]]   # a Schedule given to a strategy that ignores it
         virr.update(extra)
         # control: the same values under a strategy that reads one of them
         cirr = {"method": 5 if m != 5 else 2, "depth": p["depth"], "IrrInterval": p["interval"]}
